@@ -36,6 +36,7 @@ type Step struct {
 	Base    int64  `json:"base,omitempty"`   // trimat / trimrec: threshold in seconds the jitter is relative to
 	Errno   string `json:"errno,omitempty"`  // trim / trimat / trimrec: the Nth removal of this Trim fails with this error
 	Nth     int    `json:"nth,omitempty"`
+	FaultOp string `json:"fault_op,omitempty"` // "" = the Nth removal fails; open | read = the first open / read of the trim record fails (the record is unreadable)
 }
 
 type Plan struct {
@@ -190,6 +191,11 @@ func genPlan(t *rapid.T, tier string) any {
 			// one removal of this Trim fails (a file the process may not unlink)
 			s.Errno = rapid.SampledFrom([]string{"EPERM", "EBUSY", "EIO", "EACCES"}).Draw(t, "errno")
 			s.Nth = rapid.IntRange(0, 4).Draw(t, "nth")
+			if rapid.IntRange(0, 2).Draw(t, "recfault") == 0 {
+				// the trim record cannot be read this time (I/O error, permission): like a corrupt or missing record
+				s.FaultOp = rapid.SampledFrom([]string{"open", "read"}).Draw(t, "faultop")
+				s.Nth = 0
+			}
 		}
 		p.Steps = append(p.Steps, s)
 	}
@@ -252,7 +258,7 @@ func run(t *testing.T, plan any, keep bool) *simcheck.Outcome {
 	// returned and by the steps that rewrite trim.txt), not whatever the file holds right now
 	modelRec := ""
 	modelRecOK := false
-	crashes, rmFaults := 0, 0
+	crashes, rmFaults, recFaults := 0, 0, 0
 	trimsDue, trimsNotDue, removed, keptNearBoundary := 0, 0, 0, 0
 	jumped := false
 
@@ -433,14 +439,27 @@ func run(t *testing.T, plan any, keep bool) *simcheck.Outcome {
 					simos.Disarm()
 				} else if st.Errno != "" {
 					nf := len(simos.FiredAt())
-					simos.Arm([]simos.Fault{{Proc: -1, Op: "remove", Nth: st.Nth, Action: "error", Errno: st.Errno}})
+					if st.FaultOp != "" {
+						simos.Arm([]simos.Fault{{Proc: -1, Op: st.FaultOp, Class: "trim", Nth: 0, Action: "error", Errno: st.Errno}})
+					} else {
+						simos.Arm([]simos.Fault{{Proc: -1, Op: "remove", Nth: st.Nth, Action: "error", Errno: st.Errno}})
+					}
 					err := c.Trim()
 					simos.Disarm()
 					for _, f := range simos.FiredAt()[nf:] {
+						if st.FaultOp != "" {
+							recFaults++
+							// An unreadable record is like a corrupt or missing one: a trim that the history makes
+							// due must still do all of its work; one that the history makes not due may or may not run.
+							if state == "notdue" {
+								state = "future"
+							}
+							continue
+						}
 						unremovable[rel(strings.TrimPrefix(f, "remove "))] = true
 						rmFaults++
 					}
-					if err != nil {
+					if err != nil && st.FaultOp == "" {
 						state = "failed" // a Trim that reports failure claims nothing beyond the keep and foreign-file clauses
 					}
 				} else if err := c.Trim(); err != nil {
@@ -567,6 +586,7 @@ func run(t *testing.T, plan any, keep bool) *simcheck.Outcome {
 	}
 	out.Count("fired_trim_process_halted", int64(rep.Halts))
 	out.Count("fired_remove_failed_during_trim", int64(rmFaults))
+	out.Count("fired_trim_record_unreadable", int64(recFaults))
 	out.Count("trims_due", int64(trimsDue))
 	out.Count("trims_not_due", int64(trimsNotDue))
 	out.Count("entry_files_removed_by_trim", int64(removed))
@@ -594,7 +614,7 @@ var harness = &simcheck.Harness{
 	Level:    "exploration",
 	Rule: "rapid draws a history of up to 16 (quick) / 30 (thorough) steps: Put, Get, GetBytes, GetFile, OutputFile, clock advances drawn mostly from boundary values " +
 		"(1s ... 24h+-1m, 5d+-1m, 5d1h+-1s/1m, 30d), Trim, trim-record rewrites (valid with recent/old/future offsets, garbage, empty, missing), foreign files, " +
-		"directly aged entry files, and (a quarter of the plans) backward clock jumps; plus macro steps (look an entry up after a gap of under two hours; move the clock to an entry file's last use + 5d or 5d1h +- jitter and Trim; move it to the trim record + 24h +- jitter and Trim; a Trim whose process halts before its k-th file operation; a Trim one of whose removals fails with EPERM/EBUSY/EIO/EACCES - that file may stay, every other stale entry must still go), half the plans with all action ids in one cache subdirectory, a third starting with a store / two lookups / trim-at-threshold scenario, foreign non-empty directories with entry-like names inside an entry subdirectory; non-trivial = the history contains a Trim; " +
+		"directly aged entry files, and (a quarter of the plans) backward clock jumps; plus macro steps (look an entry up after a gap of under two hours; move the clock to an entry file's last use + 5d or 5d1h +- jitter and Trim; move it to the trim record + 24h +- jitter and Trim; a Trim whose process halts before its k-th file operation; a Trim one of whose removals fails with EPERM/EBUSY/EIO/EACCES - that file may stay, every other stale entry must still go; a Trim during which the trim record cannot be opened or read - a due trim must still do all its work), half the plans with all action ids in one cache subdirectory, a third starting with a store / two lookups / trim-at-threshold scenario, foreign non-empty directories with entry-like names inside an entry subdirectory; non-trivial = the history contains a Trim; " +
 		"distinct by the hash of the intercepted file-operation sequence",
 	Gen:     genPlan,
 	NewPlan: func() any { return &Plan{} },
